@@ -230,32 +230,38 @@ def interpreted_relativize(rep, index):
 
 
 def emitter_rules(rep, index):
-    """The generated __init__ star-imports every file written for its protocol file (structural rule on the emitter)."""
-    m, fn, cls = index.function("protocol_code_generator.generate.code_generator.ProtocolCodeGenerator._generate_source_file")
-    loops = [n for n in ast.walk(fn) if isinstance(n, ast.For)]
-    ok = False
-    for lp in loops:
-        calls = [c for c in ast.walk(lp) if isinstance(c, ast.Call) and isinstance(c.func, ast.Attribute)]
-        writes = [c for c in calls if c.func.attr == "write"]
-        stars = [c for c in calls if c.func.attr == "add_import" and c.args and isinstance(c.args[0], ast.Constant) and c.args[0].value == "*"]
-        if writes and stars:
-            ok = True
-    rep.ob("C20.G1 generated-init-star-imports-every-written-file", "_generate_source_file", ok,
-           "python_file.write(...) and generated_init.add_import('*', ...) occur in the same loop over the generated files: %s" % ok,
-           loc=index.loc(m, fn))
-    # the __init__.py of a protocol file is written on every path (also when the file declares nothing)
-    body = [st for st in fn.body if not (isinstance(st, ast.Expr) and isinstance(st.value, ast.Constant))]
-    init_write = None
-    for i, st in enumerate(body):
-        if isinstance(st, ast.Expr) and isinstance(st.value, ast.Call) and isinstance(st.value.func, ast.Attribute) \
-                and st.value.func.attr == "write" and isinstance(st.value.func.value, ast.Name) and "init" in st.value.func.value.id:
-            init_write = i
-    early = []
-    if init_write is not None:
-        for st in body[:init_write]:
-            for n in ast.walk(st):
-                if isinstance(n, ast.Return):
-                    early.append(n.lineno)
-    rep.ob("C20.G2 package-init-written-for-every-protocol-file", "_generate_source_file", init_write is not None and not early,
-           "the __init__ file's write() is a top-level statement of the function: %s; return statements before it: %s" % (init_write is not None, early),
-           loc=index.loc(m, fn))
+    """The generated __init__ of every protocol file's package star-imports every file written for it, and is written
+    also for a protocol file that declares nothing: read off the files the abstractly executed generator writes."""
+    from ..genabs.driver import Session, run_program
+    from ..genabs.values import Elem
+    from .c18 import package_facts, program_tree
+
+    def tree_with_an_empty_file():
+        t = program_tree()
+        t["pub/server"] = Elem("protocol", {}, [])
+        for d, e in t.items():
+            # nothing may refer to what pub/server no longer declares
+            for kid in e.children:
+                if kid.tag in ("struct", "packet"):
+                    kid.children[:] = [c for c in kid.children if "PubServer" not in str(c.attrs.get("type", ""))]
+        return t
+
+    n = 0
+    for label, tree in (("the 7-directory tree", program_tree), ("the same tree with an empty pub/server file", tree_with_an_empty_file)):
+        for o in run_program(Session(index), tree, runs=1):
+            n += 1
+            inst = "generate() over %s path[%s]" % (label, o.path())
+            if o.rejected:
+                raise AnalysisError("C20: the generator rejects %s (%s at %s)" % (label, o.exc, o.exc_site))
+            files = {f["path"]: f["content"] for f in o.value[0].files}
+            f = package_facts(files)
+            rep.ob("C20.G1 generated-init-star-imports-every-written-file", inst, not f["not_exported"] and not f["syntax"],
+                   "; ".join(f["not_exported"][:3]) or "every module written into a package is star-imported by that package's __init__")
+            want = {"", "map", "net", "net/client", "net/server", "pub", "pub/server"}
+            have = {m.rsplit("/", 1)[0] if "/" in m else "" for m in f["mods"] if m.endswith("__init__.py")}
+            rep.ob("C20.G2 package-init-written-for-every-protocol-file", inst, want <= have,
+                   "no __init__.py written for: %s" % sorted(want - have) if want - have else "an __init__.py is written for each of the %d protocol files" % len(want))
+    rep.count("emitter program runs", n)
+    rep.floor("emitter program runs", 2)
+
+
